@@ -56,15 +56,19 @@ Qed.
 (* ---------- an induction principle for link expressions ---------- *)
 Fixpoint pexpr_rect' (P : pexpr -> Prop)
          (HP : forall j, P (PixT j))
-         (HL : forall c k args, Forall P args -> P (Lnk c k args)) (e : pexpr) : P e :=
+         (HL : forall c k args, Forall P args -> P (Lnk c k args))
+         (HW : forall terms k ds, P (WorldT terms k ds))
+         (HG : forall c a, P a -> P (Guard c a)) (e : pexpr) : P e :=
   match e with
   | PixT j => HP j
   | Lnk c k args =>
     HL c k args ((fix go (l : list pexpr) : Forall P l :=
                     match l with
                     | [] => Forall_nil P
-                    | a :: r => Forall_cons a (pexpr_rect' P HP HL a) (go r)
+                    | a :: r => Forall_cons a (pexpr_rect' P HP HL HW HG a) (go r)
                     end) args)
+  | WorldT terms k ds => HW terms k ds
+  | Guard c a => HG c a (pexpr_rect' P HP HL HW HG a)
   end.
 
 Lemma insert_sorted_In : forall x y l, In y (insert_sorted x l) <-> y = x \/ In y l.
@@ -91,20 +95,29 @@ Proof.
   - intros H. exists i. split; [exact H|apply Nat.eqb_refl].
 Qed.
 
-(* dims_sound: the translated coordinate only depends on the reference axes listed in its `dimensions` *)
-Lemma dims_sound : forall e pos pos',
+(* dims_sound: the translated coordinate (a number, or undefined) only depends on the reference axes listed in its `dimensions`,
+   provided the dimensions reported for world coordinates cover the pixel axes they are computed from *)
+Lemma dims_sound : forall e pos pos', wf_exprb e = true ->
   (forall j, In j (dims e) -> pos j = pos' j) -> eval e pos = eval e pos'.
 Proof.
-  intros e. induction e as [j|c k args IH] using pexpr_rect'; intros pos pos' H.
-  - simpl. apply H. simpl. auto.
-  - simpl. f_equal. f_equal.
-    simpl in H.
-    assert (H' : forall j, In j (flat_map (fun a => dims a) args) -> pos j = pos' j).
-    { intros j Hj. apply H. apply sort_set_In. exact Hj. }
-    clear H. induction args as [|a args IHa]; [reflexivity|].
-    simpl. inversion IH as [|? ? Ha Hargs]; subst. f_equal.
-    + apply Ha. intros j Hj. apply H'. simpl. apply in_or_app. left. exact Hj.
-    + apply IHa; [exact Hargs|]. intros j Hj. apply H'. simpl. apply in_or_app. right. exact Hj.
+  intros e. induction e as [j|c k args IH|terms k ds|c a IH] using pexpr_rect'; intros pos pos' Hwf H.
+  - simpl. f_equal. apply H. simpl. auto.
+  - simpl.
+    assert (E : map (fun a => eval a pos) args = map (fun a => eval a pos') args).
+    { simpl in H, Hwf.
+      assert (H' : forall j, In j (flat_map (fun a => dims a) args) -> pos j = pos' j).
+      { intros j Hj. apply H. apply sort_set_In. exact Hj. }
+      clear H. induction args as [|a args IHa]; [reflexivity|].
+      simpl in Hwf. apply andb_true_iff in Hwf. destruct Hwf as [Hw1 Hw2].
+      simpl. inversion IH as [|? ? Ha Hargs]; subst. f_equal.
+      - apply Ha; [exact Hw1|]. intros j Hj. apply H'. simpl. apply in_or_app. left. exact Hj.
+      - apply IHa; [exact Hargs|exact Hw2|]. intros j Hj. apply H'. simpl. apply in_or_app. right. exact Hj. }
+    rewrite E. reflexivity.
+  - simpl. f_equal. simpl in H, Hwf. rewrite forallb_forall in Hwf.
+    induction terms as [|[j q] terms IHt]; [reflexivity|].
+    simpl. rewrite IHt by (intros x Hx; apply Hwf; right; exact Hx).
+    rewrite (H j); [reflexivity|]. apply memn_In. apply (Hwf (j, q)). left. reflexivity.
+  - simpl. simpl in H, Hwf. rewrite (IH pos pos' Hwf H). reflexivity.
 Qed.
 
 (* ---------- bounds that match a cached key ---------- *)
@@ -204,14 +217,14 @@ Proof.
 Qed.
 
 (* dims_sound lifted to bounds: requests that match a PIXEL_CACHE key give the cached coordinate *)
-Lemma axis_result_like : forall e size D bs bs',
+Lemma axis_result_like : forall e size D bs bs', wf_exprb e = true ->
   like_except D bs bs' -> (forall j, In j (dims e) -> In j D) -> axis_result e size bs' = axis_result e size bs.
 Proof.
-  intros e size D bs bs' HL Hd. unfold axis_result.
+  intros e size D bs bs' Hwf HL Hd. unfold axis_result.
   rewrite (like_except_grid D bs bs' HL).
-  assert (E : map (fun g => round_half_even (eval e (pos_at bs' g))) (all_indices (grid_shape bs)) =
-              map (fun g => round_half_even (eval e (pos_at bs g))) (all_indices (grid_shape bs))).
-  { apply map_ext. intros g. f_equal. apply dims_sound. intros j Hj. apply (like_except_pos D); [exact HL|]. apply Hd. exact Hj. }
+  assert (E : map (fun g => option_map round_half_even (eval e (pos_at bs' g))) (all_indices (grid_shape bs)) =
+              map (fun g => option_map round_half_even (eval e (pos_at bs g))) (all_indices (grid_shape bs))).
+  { apply map_ext. intros g. f_equal. apply dims_sound; [exact Hwf|]. intros j Hj. apply (like_except_pos D); [exact HL|]. apply Hd. exact Hj. }
   rewrite E. reflexivity.
 Qed.
 
@@ -245,8 +258,8 @@ Proof.
   intros i Hi. destruct (H i Hi) as [E|[_ [S1 S2]]]; [left; exact E|right; split; assumption].
 Qed.
 
-Lemma dims_sound_bounds : forall e size bs bs',
+Lemma dims_sound_bounds : forall e size bs bs', wf_exprb e = true ->
   cbs_match (bounds_for_cache bs (dims e)) bs' = true -> axis_result e size bs' = axis_result e size bs.
 Proof.
-  intros e size bs bs' H. apply (axis_result_like e size (dims e)); [apply match_like_except; exact H|auto].
+  intros e size bs bs' Hwf H. apply (axis_result_like e size (dims e)); [exact Hwf|apply match_like_except; exact H|auto].
 Qed.
